@@ -179,6 +179,7 @@ def audit(pre, post, events):
     """Completeness audit of the effect seam: every difference between the two snapshots must be
     explained by a logged effect on that path or on an ancestor directory.  Returns unexplained."""
     ps = effect_paths(events)
+    ps = ps | {e['path'] for e in events if e.get('k') == 'actor'}      # what an outside actor did while the process ran is explained too
     links = links_of(pre)
     links.update(links_of(post))
     if links:
